@@ -23,7 +23,8 @@ def showRes : Option Bool → String
   | some false => "err"
 
 def showOut (s : State) (o : Out) : String :=
-  s!"res={showRes o.result} sent={showNatList o.sent} last={showLast s.lastSent} pending={showPending s.pending}"
+  -- `early`: heights a subscriber received before they were in the store (the model inserts before it sends)
+  s!"res={showRes o.result} sent={showNatList o.sent} early=- last={showLast s.lastSent} pending={showPending s.pending}"
 
 /-- `from=a to=b` (a run) or `hs=<list>` -/
 def rangeArg? (ws : List String) : Option (List Nat) :=
@@ -41,24 +42,38 @@ def parseEvent (ws : List String) : Option Event :=
     | _, _ => none
   | _ => none
 
-def step (s : State) (line : String) : State × String :=
+/-- driver state: the model state plus whether the harness's subscriber is still subscribed.
+    `unsub` aborts it; the real `broadcast::Sender::send` then fails and `send_range` returns at its
+    "no receivers - skip sending" exit after having advanced `last_sent_height`: the model state moves
+    exactly as before, only nothing is received any more (`sent=-`). -/
+structure St where
+  s : State := init
+  recv : Bool := true
+
+def step (st : St) (line : String) : St × String :=
   let ws := words line
+  let s := st.s
   match ws with
-  | "reset" :: _ => (init, "ok")
+  | "reset" :: _ => ({}, "ok")
+  | "unsub" :: _ =>
+    ({ st with recv := false }, s!"res=- sent=- early=- last={showLast s.lastSent} pending={showPending s.pending}")
   | _ =>
     match parseEvent ws with
-    | none => (s, "bad-op")
+    | none => (st, "bad-op")
     | some e =>
       let (s', o) := Lumina.Model.Subs.step s e
-      if o.panic then (s', "panic") else (s', showOut s' o)
+      if o.panic then ({ st with s := s' }, "panic")
+      else ({ st with s := s' }, showOut s' (if st.recv then o else { o with sent := [] }))
 
 open Lumina.Spec.C37
 
-def spec (s : State) (op : String) (obs : String) : String :=
+def spec (st : St) (op : String) (obs : String) : String :=
   let ws := words op
   let os := words obs
+  let s := st.s
   match ws with
   | "reset" :: _ => "specskip"
+  | "unsub" :: _ => "specskip"
   | _ =>
     match parseEvent ws with
     | none => "specfail C37/unparsed"
@@ -66,6 +81,14 @@ def spec (s : State) (op : String) (obs : String) : String :=
       if obs == "panic" then
         -- a panic of the implementation is only acceptable where the model (debug_assert / expect) panics too
         if (Lumina.Model.Subs.step s e).2.panic then "specskip" else "specfail C37/panic unexpected panic"
+      else if !st.recv then
+        -- nobody is subscribed: the property promises nothing, but nothing may be received either
+        match natListArg? os "sent" with
+        | some [] => "specskip"
+        | _ => "specfail C37/received-without-subscriber"
+      else
+      if arg? os "early" != some "-" then
+        "specfail C37/received-before-stored a subscriber received a height that was not in the store at that moment"
       else
       match natListArg? os "sent", arg? os "res" with
       | some sent, some res =>
@@ -91,7 +114,7 @@ def spec (s : State) (op : String) (obs : String) : String :=
           else "specok"
       | _, _ => "specfail C37/unparsed"
 
-def handler : Driver.Handler State := { init := init, step := step, spec := spec }
+def handler : Driver.Handler St := { init := {}, step := step, spec := spec }
 
 end Driver.C37
 
